@@ -8,18 +8,20 @@
 (* output is the sequence of data rows <<section, row>> in document order.    *)
 (***************************************************************************)
 EXTENDS Naturals, Integers, Sequences, FiniteSets, TLC, Json
-CONSTANTS MaxSec, RowSet, ColSet, HdrSet, FootSet, BoolSet, NrowSet, BodySet
+CONSTANTS MaxSec, RowSet, ColSet, HdrSet, FootSet, BoolSet, NrowSet, BodySet, PbSet
+\* PbSet: "none" | "rot": all sections use the SAME column names, non-uniform relative widths, and section i hides
+\*        column (i mod m) as its page_by column (shown as spanning rows), so equal frames hide different columns
 \* BodySet: "own" (one RTFBody per section) | "shared" (the same RTFBody() object for every section) |
 \*          "sharedw" (the same RTFBody(col_rel_width=[1]) object for every section)
 VARIABLES secs, opts, phase, i, out
 vars == <<secs, opts, phase, i, out>>
-Init == secs = <<>> /\ opts = [foot |-> "none", src |-> "none", title |-> FALSE, nrow |-> 40, body |-> "own"] /\ phase = "pick" /\ i = 1 /\ out = <<>>
+Init == secs = <<>> /\ opts = [foot |-> "none", src |-> "none", title |-> FALSE, nrow |-> 40, body |-> "own", pb |-> "none"] /\ phase = "pick" /\ i = 1 /\ out = <<>>
 PickSection == /\ phase = "pick" /\ Len(secs) < MaxSec
                /\ \E n \in RowSet, m \in ColSet, h \in HdrSet : secs' = Append(secs, [n |-> n, m |-> m, hdr |-> h])
                /\ UNCHANGED <<opts, phase, i, out>>
 PickOpts == /\ phase = "pick" /\ Len(secs) >= 2
-            /\ \E f \in FootSet, s \in FootSet, t \in BoolSet, nr \in NrowSet, b \in BodySet :
-                  opts' = [foot |-> f, src |-> s, title |-> t, nrow |-> nr, body |-> b]
+            /\ \E f \in FootSet, s \in FootSet, t \in BoolSet, nr \in NrowSet, b \in BodySet, pbm \in PbSet :
+                  opts' = [foot |-> f, src |-> s, title |-> t, nrow |-> nr, body |-> IF pbm = "rot" THEN "own" ELSE b, pb |-> pbm]
             /\ phase' = "emit" /\ UNCHANGED <<secs, i, out>>
 Section == /\ phase = "emit" /\ i <= Len(secs)
            /\ out' = out \o [r \in 1..secs[i].n |-> <<i, r>>]
